@@ -628,24 +628,24 @@ def check(ctx):
         want = ["NoSuchProcess", "AccessDenied", "Unchanged"] + ([] if p == "windows" else ["ZombieProcess"])
         for cls in want:
             if not judge.expected[(p, cls)]:
-                raise core.Machinery("vacuity: no delivered fault on %s demanded %s" % (p, cls))
+                core.vacuity("no delivered fault on %s demanded %s" % (p, cls))
             if not judge.seen[(p, cls)] and not ctx.violations:
-                raise core.Machinery("vacuity: outcome class %s was never observed on %s" % (cls, p))
+                core.vacuity("outcome class %s was never observed on %s" % (cls, p))
         if plat_out[p]["pid0rule"] and not judge.pid0[p]:
-            raise core.Machinery("vacuity: the PID 0 rule was never exercised on %s" % p)
+            core.vacuity("the PID 0 rule was never exercised on %s" % p)
         for m in plat_out[p]["methods"]:
             if not judge.fired[(p, m)]:
-                raise core.Machinery("vacuity: no native access of %s.%s() was ever made to fail" % (p, m))
+                core.vacuity("no native access of %s.%s() was ever made to fail" % (p, m))
         if not lay_ok[(p, "primary")]:
-            raise core.Machinery("vacuity: no layout row of %s matched" % p)
+            core.vacuity("no layout row of %s matched" % p)
     for p in ("netbsd", "sunos", "aix"):
         if not judge.kinds[(p, "procfs")] or not judge.kinds[(p, "sys")]:
-            raise core.Machinery("vacuity: %s: both kinds of native access must fail at least once (%r)" % (p, dict(judge.kinds)))
+            core.vacuity("%s: both kinds of native access must fail at least once (%r)" % (p, dict(judge.kinds)))
     if not lay_ok[("windows", "alt")] and not any(v[0].startswith("layout:windows") for v in ctx.violations):
-        raise core.Machinery("vacuity: no fallback-record layout row of windows matched")
+        core.vacuity("no fallback-record layout row of windows matched")
     site1 = sum(1 for e in chosen if e["row"]["site"] == 1)
     if judge.stats["fired"] < 0.8 * site1:
-        raise core.Machinery("vacuity: only %d faults were delivered for %d rows with site 1" % (judge.stats["fired"], site1))
+        core.vacuity("only %d faults were delivered for %d rows with site 1" % (judge.stats["fired"], site1))
 
 
 # ---------------------------------------------------------------------------
